@@ -25,33 +25,10 @@ Section Track.
   Variable re : pat -> str -> bool.
 
   (* ---------- phase 1 ---------- *)
-  Lemma dev_add_ints : forall tys s, st_dev (add_ints tys s) = st_dev s.
-  Proof.
-    unfold add_ints. induction tys as [|t l IH]; intros s; simpl; auto. destruct t; rewrite IH; reflexivity.
-  Qed.
-  Lemma shape_add_ints : forall tys s, shape (add_ints tys s) = shape s.
-  Proof.
-    unfold add_ints. induction tys as [|t l IH]; intros s; simpl; auto. destruct t; rewrite IH; reflexivity.
-  Qed.
-
-  Lemma dev_step_type : forall tys s,
-    st_dev (step_type tys s) = st_dev s ++ (if has_ty TyInteger tys && has_ty TyNumber tys then [DEV_integer_and_number] else []).
-  Proof.
-    intros tys s. unfold step_type. simpl.
-    change (fold_left (fun s0 t => match t with TyInteger => add_C s0 TNum (num_pred is_int) | _ => s0 end) tys
-              (dev_if (has_ty TyInteger tys && has_ty TyNumber tys) DEV_integer_and_number s))
-      with (add_ints tys (dev_if (has_ty TyInteger tys && has_ty TyNumber tys) DEV_integer_and_number s)).
-    rewrite dev_add_ints, dev_dev_if. reflexivity.
-  Qed.
+  Lemma dev_step_type : forall tys s, st_dev (step_type tys s) = st_dev s.
+  Proof. intros tys s. unfold step_type. destruct (int_only tys); reflexivity. Qed.
   Lemma shape_step_type : forall tys s, shape (step_type tys s) = shape s.
-  Proof.
-    intros tys s. unfold step_type.
-    change (fold_left (fun s0 t => match t with TyInteger => add_C s0 TNum (num_pred is_int) | _ => s0 end) tys
-              (dev_if (has_ty TyInteger tys && has_ty TyNumber tys) DEV_integer_and_number s))
-      with (add_ints tys (dev_if (has_ty TyInteger tys && has_ty TyNumber tys) DEV_integer_and_number s)).
-    unfold shape. simpl. fold (shape (add_ints tys (dev_if (has_ty TyInteger tys && has_ty TyNumber tys) DEV_integer_and_number s))).
-    rewrite shape_add_ints. destruct (has_ty TyInteger tys && has_ty TyNumber tys); reflexivity.
-  Qed.
+  Proof. intros tys s. unfold step_type. destruct (int_only tys); reflexivity. Qed.
 
   Lemma dev_step_enum : forall vs s, st_dev (step_enum vs s) = st_dev s.
   Proof. intros. unfold step_enum. destruct (filter _ vs); simpl; auto. Qed.
@@ -66,12 +43,7 @@ Section Track.
   Lemma shape_step_multipleOf : forall k s, shape (step_multipleOf k s) = shape s.
   Proof. intros. unfold step_multipleOf. destruct (Z.leb k 0); reflexivity. Qed.
 
-  Lemma dev_phase1 : forall a s,
-    st_dev (phase1 re a s) = st_dev s ++
-      match a_type a with
-      | Some tys => if has_ty TyInteger tys && has_ty TyNumber tys then [DEV_integer_and_number] else []
-      | None => []
-      end.
+  Lemma dev_phase1 : forall a s, st_dev (phase1 re a s) = st_dev s.
   Proof.
     intros a s. unfold phase1.
     rewrite dev_opt_step by (intros [] s0; reflexivity).
@@ -79,7 +51,7 @@ Section Track.
     rewrite dev_opt_step by apply dev_step_multipleOf.
     rewrite dev_opt_step by apply dev_step_const.
     rewrite dev_opt_step by apply dev_step_enum.
-    destruct (a_type a); simpl; [apply dev_step_type | rewrite app_nil_r; reflexivity].
+    destruct (a_type a); simpl; [apply dev_step_type | reflexivity].
   Qed.
 
   Lemma shape_phase1 : forall a s, shape (phase1 re a s) = shape s.
@@ -203,19 +175,10 @@ Section Track.
                (if b then ExplicitlyOpen else ExplicitlyClosed)), st_prefix s, st_rest s).
   Proof. intros. reflexivity. Qed.
 
-  Definition addl_dev_cond (o : objb) : bool :=
-    mem_str [] (map f_name (ob_fields o)) ||
-    match filter (fun n => negb (str_eqb n [])) (map f_name (ob_fields o)) with [] => true | _ => false end.
-
-  Lemma dev_step_addl_schema : forall r s,
-    st_dev (step_addl_schema r s) = st_dev s ++ r_dev r ++
-      (if ob_no_elts (the_obj s) then [] else if addl_dev_cond (the_obj s) then [DEV_empty_name] else []).
+  Lemma dev_step_addl_schema : forall r s, st_dev (step_addl_schema r s) = st_dev s ++ r_dev r.
   Proof.
     intros. unfold step_addl_schema.
-    rewrite <- (the_obj_flags _ _ (sem_eq_absorb r s)).
-    destruct (ob_no_elts (the_obj s)).
-    - cbn [st_dev set_obj]. rewrite dev_absorb, app_nil_r. reflexivity.
-    - cbn [st_dev set_obj]. rewrite dev_dev_if, dev_absorb, <- app_assoc. reflexivity.
+    destruct (ob_no_elts (the_obj (absorb r s))); cbn [st_dev set_obj]; apply dev_absorb.
   Qed.
   Lemma shape_step_addl_schema : forall r s,
     shape (step_addl_schema r s) =
@@ -227,11 +190,8 @@ Section Track.
     intros. unfold step_addl_schema.
     pose proof (sem_eq_absorb r s) as E0.
     rewrite <- (the_obj_flags _ _ E0).
-    destruct (ob_no_elts (the_obj s)); unfold shape; simpl.
-    - destruct E0 as (_ & _ & _ & _ & _ & f & g). rewrite f, g. reflexivity.
-    - match goal with |- context[dev_if ?c ?d ?x] =>
-        destruct (sem_eq_trans _ _ _ E0 (sem_eq_dev_if c d x)) as (_ & _ & _ & _ & _ & f & g) end.
-      rewrite f, g. reflexivity.
+    destruct E0 as (_ & _ & _ & _ & _ & f & g).
+    destruct (ob_no_elts (the_obj s)); unfold shape; simpl; rewrite f, g; reflexivity.
   Qed.
 
   Lemma dev_step_items : forall r s, st_dev (step_items r s) = st_dev s ++ r_dev r.
